@@ -29,11 +29,12 @@ Definition xobs := (option (str * list xchange) * str * bool * list (N * N))%typ
 Record xml_case := {
   xk : xkind;
   x_fc : list xresult;
-  x_orig : str;
+  x_orig : str;                               (* decoded text, or a code for the bytes when not x_reread_ok *)
+  x_reread_ok : bool;                         (* the original decodes as UTF-8 *)
   x_parse : option (list pevent);
   x_diffs : list (str * str);                  (* written text -> create_diff(original lines, its lines) *)
-  x_real : xobs;
-  x_dry : xobs;
+  x_real : option xobs;                       (* None = apply() raised *)
+  x_dry : option xobs;
   x_reparsed : option (list event) }.          (* events of the file written by the real run, read back *)
 
 Definition step_of (c : xml_case) : pevent -> list event * list xchange :=
@@ -55,9 +56,17 @@ Definition xout_eqb (m : xapply_out (D := option str)) (o : xobs) : bool :=
   end && str_eqb (xo_file m) file && Bool.eqb (xo_failed m) failed && list_eqb (pair_eqb N.eqb N.eqb) (xo_unfixed m) unf.
 
 (** MODEL = IMPLEMENTATION: returned changes, diff, written text byte for byte, failure bookkeeping *)
+Definition xobs_matches (m : option (xapply_out (D := option str))) (o : option xobs) : bool :=
+  match m, o with
+  | None, None => true
+  | Some m, Some o => xout_eqb m o
+  | _, _ => false
+  end.
 Definition xml_model_ok (c : xml_case) : bool :=
-  xout_eqb (xml_apply (x_fc c) (xdiff_of (x_diffs c)) xdiff_empty xml_pipeline_diff_guard (step_of c) false (x_orig c) (x_parse c)) (x_real c) &&
-  xout_eqb (xml_apply (x_fc c) (xdiff_of (x_diffs c)) xdiff_empty xml_pipeline_diff_guard (step_of c) true (x_orig c) (x_parse c)) (x_dry c).
+  xobs_matches (xml_apply_file (x_fc c) (xdiff_of (x_diffs c)) xdiff_empty xml_pipeline_diff_guard (step_of c) false
+                               (x_orig c) (x_parse c) (x_reread_ok c)) (x_real c) &&
+  xobs_matches (xml_apply_file (x_fc c) (xdiff_of (x_diffs c)) xdiff_empty xml_pipeline_diff_guard (step_of c) true
+                               (x_orig c) (x_parse c) (x_reread_ok c)) (x_dry c).
 
 (** the expected stream and changes *)
 Definition expected_events (c : xml_case) (evs : list pevent) : list event :=
@@ -96,7 +105,14 @@ Fixpoint canon_dev (d : devs) (in_cdata : bool) (pending : str) (evs : list even
       end
   end.
 
+(** the expected document serialises to the original text: whether that is reported as a change is C15's business *)
+Definition noop_edit (c : xml_case) : bool :=
+  match x_parse c with
+  | Some evs => str_eqb (universal_newlines (emit_all (expected_events c evs))) (x_orig c)
+  | None => false
+  end.
 Definition no_edit_expected (c : xml_case) : bool :=
+  negb (x_reread_ok c) || noop_edit c ||
   match x_parse c with Some evs => match expected_changes c evs with [] => true | _ => false end | None => true end.
 
 (** SPEC on the observation: content of the written document *)
@@ -120,24 +136,47 @@ Definition xml_content_ok_but_comment := content_ok_with {| d_cdata := true; d_d
 Definition xml_content_ok_but_cr := content_ok_with {| d_cdata := true; d_doctype := true; d_comment := true; d_cr := false |}.
 
 (** one change per edit, in document order, with the findings whose range contains its line; None iff no edit *)
+Definition edits_expected (c : xml_case) : bool :=
+  match x_parse c with Some evs => match expected_changes c evs with [] => false | _ => true end | None => false end.
+
 Definition xml_changes_ok (c : xml_case) : bool :=
-  let '(ret, _, _, _) := x_real c in
-  let '(retd, _, _, _) := x_dry c in
-  match x_parse c with
-  | None => match ret, retd with None, None => true | _, _ => false end
-  | Some evs =>
-      let e := expected_changes c evs in
-      let ok r := match e, r with
-                  | [], None => true
-                  | _ :: _, Some (_, chs) => list_eqb xchange_eqb chs e
-                  | _, _ => false end in
-      ok ret && ok retd
+  match x_real c, x_dry c with
+  | Some (ret, _, _, _), Some (retd, _, _, _) =>
+      match x_parse c with
+      | None => match ret, retd with None, None => true | _, _ => false end
+      | Some evs =>
+          let e := expected_changes c evs in
+          let ok r := match e, r with
+                      | [], None => true
+                      | _ :: _, Some (_, chs) => x_reread_ok c && list_eqb xchange_eqb chs e
+                      | _ :: _, None => negb (x_reread_ok c) || noop_edit c
+                      | _, _ => false end in
+          ok ret && ok retd
+      end
+  | _, _ => true          (* raising is reported by xml_isolation_ok *)
   end.
 
 (** dry-run and no-edit and unparsable documents leave the file alone; failure is recorded *)
 Definition xml_guards_ok (c : xml_case) : bool :=
-  let '(ret, file, failed, _) := x_real c in
-  let '(_, filed, failedd, _) := x_dry c in
-  str_eqb filed (x_orig c) &&
-  match ret with None => str_eqb file (x_orig c) | Some _ => true end &&
-  match x_parse c with None => failed && failedd | Some _ => negb failed && negb failedd end.
+  match x_real c, x_dry c with
+  | Some (ret, file, failed, _), Some (_, filed, failedd, _) =>
+      str_eqb filed (x_orig c) &&
+      match ret with None => str_eqb file (x_orig c) | Some _ => true end &&
+      (let expect_failed := match x_parse c with None => true | Some _ => edits_expected c && negb (x_reread_ok c) end in
+       Bool.eqb failed expect_failed && Bool.eqb failedd expect_failed)
+  | _, _ => true
+  end.
+
+(** nothing escapes apply(); an edited document that cannot be re-read as UTF-8 is a recorded failure, left untouched,
+    with every finding of the file unfixed at line 0 *)
+Definition xml_isolation_ok (c : xml_case) : bool :=
+  let ok (o : option xobs) :=
+    match o with
+    | None => false
+    | Some (ret, file, failed, unf) =>
+        if edits_expected c && negb (x_reread_ok c)
+        then match ret with None => true | Some _ => false end && str_eqb file (x_orig c) && failed &&
+             list_eqb (pair_eqb N.eqb N.eqb) unf (map (fun f => (f, 0%N)) (xall_findings (x_fc c)))
+        else true
+    end in
+  ok (x_real c) && ok (x_dry c).
